@@ -248,7 +248,7 @@ func (ei *ErrIntern) Of(err error) ErrV {
 	v := ErrV{Cls: "COther", Txt: err.Error()}
 	if err == io.EOF {
 		v.Cls = "CEOF"
-	} else if errs.IsErrTransformFailed(err) {
+	} else if IsFailed(err) {
 		v.Cls = "CFailed"
 	}
 	rv := reflect.ValueOf(err)
@@ -299,3 +299,11 @@ func SameErr(a, b error) (same bool) {
 }
 
 func bytesReader(b []byte) io.Reader { return bytes.NewReader(b) }
+
+// IsFailed is the harness's own test for a per-record failure: the dynamic type of the error
+// VALUE is errs.ErrTransformFailed (not the library's predicate, and deliberately not errors.As:
+// an error that merely wraps an ErrTransformFailed is not one).
+func IsFailed(err error) bool {
+	_, ok := err.(errs.ErrTransformFailed)
+	return ok
+}
